@@ -64,9 +64,14 @@ pub fn check_case(prop: &str, c: &Case) -> CaseResult {
         Err(ms) => {
             r.nontrivial = true;
             for m in ms {
-                let body = is_body_sig(&m.sig);
+                // in the operator census and the body family the module-level structure is a fixed
+                // scaffold whose entities are only reachable through operator operands: an entity
+                // mismatch there means an operand denotes the wrong entity, which is C03's business
+                let scaffold = c.family == "opcensus" || c.family == "body";
+                let body = is_body_sig(&m.sig) || scaffold;
                 if (prop == "C03") == body {
-                    r.violations.push(Violation::new(prop, m.sig, m.detail, c));
+                    let sig = if scaffold && !is_body_sig(&m.sig) { format!("operand-denotes-other-entity:{}", m.sig) } else { m.sig };
+                    r.violations.push(Violation::new(prop, sig, m.detail, c));
                 }
             }
         }
@@ -88,7 +93,7 @@ pub fn run(prop: &'static str, args: &Args) -> i32 {
         ev.evaluations = 1;
         return finish(args, ev, r.violations, &|c| check_case(prop, c).violations);
     }
-    let fams: &[&str] = if prop == "C03" { &["fixtures", "struct", "funcs", "locals", "names"] } else { &["fixtures", "struct", "funcs", "locals", "names", "customs"] };
+    let fams: &[&str] = if prop == "C03" { &["fixtures", "struct", "funcs", "locals", "names", "ctrl", "idshift", "leb", "reach"] } else { &["fixtures", "struct", "funcs", "locals", "names", "customs", "reach", "leb", "idshift"] };
     let ms = crate::props::families::members(fams, args, &mut ev);
     let mut cases: Vec<Case> = ms.iter().map(|m| Case::of(m).with(Cfg::default().json())).collect();
     if prop == "C03" {
